@@ -147,6 +147,15 @@ func includeFun(t *template.Template, includedNames map[string]int) func(string,
 // defined by their enclosing contexts.
 func tplFun(parent *template.Template, includedNames map[string]int, strict bool) func(string, interface{}) (string, error) {
 	return func(tpl string, vals interface{}) (string, error) {
+		// tpl may reach itself through the values it renders; bound the nesting
+		// like include does (the counter shares includedNames under a key no
+		// template can have)
+		const tplDepth = "\x00tpl"
+		if includedNames[tplDepth] > recursionMaxNums {
+			return "", errors.Wrapf(fmt.Errorf("unable to execute template"), "tpl is nested more than %d levels deep", recursionMaxNums)
+		}
+		includedNames[tplDepth]++
+		defer func() { includedNames[tplDepth]-- }()
 		t, err := parent.Clone()
 		if err != nil {
 			return "", errors.Wrapf(err, "cannot clone template")
